@@ -9,3 +9,7 @@ import PycommProps.C13
 #print axioms Pycomm.C13.typed_valid_decodes
 #print axioms Pycomm.C13.untyped_value_is_data
 #print axioms Pycomm.C13.register_valid_iff
+#print axioms Pycomm.C13.tag_reply_error_falsy
+#print axioms Pycomm.C13.multi_packet_error_fails_all_read
+#print axioms Pycomm.C13.multi_packet_error_fails_all_write
+#print axioms Pycomm.C13.multi_packet_error_never_success
